@@ -10,12 +10,13 @@ from hv import Case
 from kern2 import Snap, area2, cross3, fr_tok
 
 SPEC = {
-    "lean_modules": ["Honeycomb.Props.C13", "Honeycomb.Props.C13b"],
+    "lean_modules": ["Honeycomb.Props.C13", "Honeycomb.Props.C13b", "Honeycomb.Props.C13c"],
     "required_theorems": ["C13_check_requirements_ok_iff", "C13_shoelace_step", "C13_earclip_area_sum",
                           "C13_fan_area_sum", "C13_fan_star_sees_every_side", "C13_fan_apex_sees_all",
                           "C13_earclip_preserves_WF", "C13_fan_preserves_WF", "C13_fan_convex_preserves_WF",
                           "C13_fan_preserves_WF_closed_face", "C13_fan_structure", "C13_fan_convex_structure",
-                          "C13_fan_cell_structure", "C13_earclip_frame"],
+                          "C13_fan_cell_structure", "C13_earclip_frame", "C13_earclip_structure",
+                          "C13_fan_test_iff", "C13_fan_first_side_weak_witness"],
     "trusted_base": [
         "Lean 4.33 kernel; axioms propext, Classical.choice, Quot.sound only",
         "hand-written model Honeycomb/Model/Kernels/{Geom2,Fan,EarClip}.lean (+ Stm, Map, Ops, Ops2) tied to /repo by the "
@@ -43,16 +44,16 @@ SPEC = {
             "orientation, fan must accept strictly convex ones. distinct_nontrivial = distinct implementation transcripts.",
     "not_proved": [
         "ear clipping succeeds on every simple polygon in general position (needs the two-ears theorem; sampled only)",
-        "exact face structure after EAR CLIPPING (every cut ear is a triangle of the intended darts; needs the invariant that the "
-        "kernel's dart vector is the current face in cyclic order through remove/push/swap_remove): oracle only. Proved instead: WF "
-        "preservation for ear clipping and both fans (Props/C13b.lean), and for the fans the exact face structure (n-2 triangles as "
-        "closed beta1 3-cycles, beta2 of the sides unchanged, other faces untouched: FanResult); for ear clipping the frame "
-        "(C13_earclip_frame: other faces untouched, beta2 of the sides unchanged, spare darts 2-linked pair by pair)",
+        "exact face structure after ear clipping is proved (C13_earclip_structure: n-2 listed triangles, each a closed beta1 3-cycle, "
+        "frame) under the hypothesis EarsNotLast (the ear is never found at the last index of the vertex list): necessary — for "
+        "ear = n-1 the kernel's vector surgery drops the wrong dart — and true on simple polygons by the two-ears theorem, which is "
+        "not proved",
         "that the triangles of the map surgery carry the coordinates of the vertex-list triangles (fanTriangles / earclipTriangles): "
         "oracle only",
         "the last remaining triangle of ear clipping has the announced orientation (the code does not test it; follows from simplicity)",
-        "the first side examined by the fan's star search is only sign-tested by the code (no epsilon test): the strict-orientation "
-        "theorem C13_fan_apex_sees_all carries the non-degeneracy of that one triangle as a hypothesis",
+        "the first side examined by the fan's star search is only sign-tested by the code: C13_fan_test_iff states exactly what is "
+        "guaranteed, C13_fan_first_side_weak_witness shows a degenerate first triangle is accepted; the strict-orientation theorem "
+        "C13_fan_apex_sees_all therefore carries 'no side collinear with the apex' as a hypothesis",
     ],
 }
 
